@@ -624,10 +624,28 @@ MULTI_CORPUS = [
 ]
 
 
-def multi_session(part, r, n):
+def stale_sweep():
+    """every kind of command as the very next command of a session whose view another session has just made stale - systematically, not by chance"""
+    changes = [[['store', 1, False, '1', 1, [3], True], ['expunge', 1, None]], [['store', 1, False, '2', 1, [3], True], ['expunge', 1, None]],
+               [['store', 1, False, '1:*', 1, [3], True], ['expunge', 1, None]], [['append', 1, 0, [], 9, 0, 0]], [['store', 1, False, '1', 1, [1], False]],
+               [['copy', 1, True, False, '1', 1, 0]], [['store', 1, False, '3', 1, [3], True], ['expunge', 1, None], ['append', 1, 0, [3], 9, 0, 0]]]
+    cmds = [['copy', 0, False, False, '1', 1, 0], ['copy', 0, False, False, '1:2', 1, 0], ['copy', 0, False, True, '101:*', 1, 0], ['copy', 0, True, False, '1:*', 1, 0],
+            ['copy', 0, True, True, '101', 2, 0], ['store', 0, False, '1:*', 1, [1], False], ['store', 0, True, '101:103', 0, [0], True], ['fetch', 0, False, '1:*', ['FLAGS', 'BODY[]']],
+            ['fetch', 0, True, '1:*', ['UID']], ['search', 0, False, '1:*', None, []], ['search', 0, True, None, '101:*', []], ['expunge', 0, None], ['expunge', 0, '101:103'],
+            ['close', 0], ['check', 0], ['select', 0, 0, False], ['select', 0, 0, True], ['status', 0, 0]]
+    out = []
+    for ch in changes:
+        for cmd in cmds:
+            prog = [['append', 1, 0, [3] if k == 1 else [], k + 1, 0, 0] for k in range(3)]
+            prog += [['select', 0, 0, False], ['select', 1, 0, False]] + ch + [cmd, ['noop', 0], cmd, ['fetch', 0, False, '1:*', ['UID']]]
+            out.append((2, prog))
+    return out
+
+
+def multi_session(part, r, n, share=0, nshares=1):
     from .common import l3
     from . import c17
-    cases = [(c['nsess'], c['program']) for c in MULTI_CORPUS]
+    cases = [(c['nsess'], c['program']) for c in MULTI_CORPUS] + stale_sweep()[share::nshares]
     for _ in range(n):
         nsess = r.choice([2, 2, 3])
         prog = l3.gen_program(r, nsess, r.randint(5, 16), dict(c17.PROFILE, weights=dict(c17.PROFILE['weights'], store=14, fetch=12, expunge=10, search=6, append=18), recent_in_flags=0.0))
@@ -694,7 +712,7 @@ def worker(job):
     except Exception as exc:   # noqa
         part.violation('monitor', f'C06 sieve: {type(exc).__name__}: {exc}', dict(seed=seed, traceback=traceback.format_exc()[-1200:]), signature=f'exception:{type(exc).__name__}')
     with guarded(part, 'C06 multi-session', dict(seed=seed)):
-        multi_session(part, r, max(4, nlines // 12))
+        multi_session(part, r, max(4, nlines // 12), share, nshares)
     with guarded(part, 'C06 outcome table', dict(seed=seed)):
         asyncio.run(outcome_sequences(part, r, nseq))
     with guarded(part, 'C06 modutf7', dict(seed=seed)):
